@@ -1,14 +1,19 @@
 import Lean.Data.Json
 import NGF.Spec.WellFormedConf
 import NGF.Model.Mangle
+import NGF.Model.Render
+import NGF.Model.RenderTie
 import NGF.Model.Proto
 /-
-Driver entry for C03.   ngfdriver_C03 judge | model
-Input: the JSON lines of harness/cmd/c03 (see harness/c03/run.go `LineJ`).
+Driver entry for C03.   ngfdriver_C03 judge | model | render
+Input: the JSON lines of harness/cmd/c03 (see harness/c03/run.go `LineJ`, harness/c03/fragment.go `FragJ`).
   judge : static lines are remembered (per plus flag) -> `{"static":true}`;
-          case lines -> {"issues":[{"c":clause,"d":detail}…],"lexdiff":[…],"tokens":n,"dirs":n}
-          (the WellFormedConf judge on static ∪ generated files; the Lean lexer against crossplane's tokens)
+          case lines -> {"issues":[{"c":clause,"d":detail}…],"wf":[…],"lexdiff":[…],"tokens":n,"dirs":n}
+          (the WellFormedConf judge on static ∪ generated files; `wf` = the small structural judge Render.wfDirs on
+          the same http.conf / matches.json; the Lean lexer against crossplane's tokens)
   model : case lines -> {"diffs":[…],"n":k}  the Mangle model against the real names observed
+  render: fragment lines {"id","flat","http","matches"} -> translation validation of Model/Render
+          (RenderTie.tie): {"inFragment","why","namesSafe","equal","diff","matchesEqual",…,"wfModel":[…],"wfReal":[…]}
 -/
 namespace NGF.C03Driver
 open Lean NGF.WF NGF.Nginx
@@ -78,8 +83,16 @@ def judgeCase (static : List (String × String)) (j : Json) : Json :=
     let ndirs : Nat := (files.filter fun f => f.1.endsWith ".conf").foldl (init := 0) fun n f =>
       match parse f.2.toList with | .ok ds => n + countDirs ds | .error _ => n
     let ntoks : Nat := (cmp.map (·.2)).foldl (init := 0) (· + ·)
+    -- the small structural judge of Model/Render on the same http.conf (the clauses the render theorems are about)
+    let wf : List Issue := match files.find? (·.1 == "/etc/nginx/conf.d/http.conf") with
+      | none => []
+      | some (_, t) =>
+        match parse t.toList with
+        | .ok ds => NGF.Render.wfDirs ds (mk.map fun km => (km.1.toList, km.2.map String.toList))
+        | .error _ => []
     Json.mkObj [
       ("issues", Json.arr (issues.map fun i => Json.mkObj [("c", i.clause), ("d", i.detail)]).toArray),
+      ("wf", Json.arr (wf.map fun i => Json.mkObj [("c", i.clause), ("d", i.detail)]).toArray),
       ("lexdiff", Json.arr ((cmp.filterMap (·.1)).map Json.str).toArray),
       ("tokens", toJson ntoks),
       ("dirs", toJson ndirs)]
@@ -114,19 +127,138 @@ def modelCase (j : Json) : Json :=
     | some m => if m == real then none else some s!"{k} {a}: real {real} / model {m}"
   Json.mkObj [("diffs", Json.arr (diffs.map Json.str).toArray), ("n", toJson names.length)]
 
+
+/-! ### `render` mode: the flat scenario of harness/c02 (copied decoders of Driver/C02) and the real files -/
+namespace Flat
+open NGF.Spec.GatewayAPI
+
+def str (j : Json) (k : String) : Except String String := do (← j.getObjVal? k).getStr?
+def nat (j : Json) (k : String) : Except String Nat := do (← j.getObjVal? k).getNat?
+def int (j : Json) (k : String) : Except String Int := do (← j.getObjVal? k).getInt?
+def bool (j : Json) (k : String) : Except String Bool := do (← j.getObjVal? k).getBool?
+def arr (j : Json) (k : String) : Except String (List Json) := do
+  match j.getObjVal? k with
+  | .ok v => if v.isNull then pure [] else return (← v.getArr?).toList
+  | .error _ => pure []
+def strs (j : Json) (k : String) : Except String (List String) := do (← arr j k).mapM (·.getStr?)
+def strMap (j : Json) (k : String) : Except String (List (String × String)) := do
+  match j.getObjVal? k with
+  | .ok (.obj m) => m.toList.mapM fun (a, b) => do pure (a, ← b.getStr?)
+  | _ => pure []
+
+def dKV (j : Json) : Except String KV := do pure ⟨← str j "type", ← str j "name", ← str j "value"⟩
+def dHeader (j : Json) : Except String Header := do pure ⟨← str j "name", ← str j "value"⟩
+
+def dMatch (j : Json) : Except String Match := do
+  pure { ptype := ← str j "ptype", pvalue := ← str j "pvalue", method := ← str j "method",
+         headers := ← (← arr j "headers").mapM dKV, query := ← (← arr j "query").mapM dKV,
+         hasGm := ← bool j "hasGm", gmType := ← str j "gmType", hasService := ← bool j "hasService",
+         service := ← str j "service", hasGMethod := ← bool j "hasGMethod", gmethod := ← str j "gmethod" }
+
+def dFilter (j : Json) : Except String Filter := do
+  pure { type := ← str j "type", present := ← bool j "present", scheme := ← str j "scheme", hostname := ← str j "hostname",
+         hasPort := ← bool j "hasPort", port := ← nat j "port", code := ← nat j "code", pathType := ← str j "pathType",
+         pathValue := ← str j "pathValue", set := ← (← arr j "set").mapM dHeader, add := ← (← arr j "add").mapM dHeader,
+         remove := ← strs j "remove" }
+
+def dBackend (j : Json) : Except String Backend := do
+  pure { group := ← str j "group", kind := ← str j "kind", hasNs := ← bool j "hasNs", ns := ← str j "ns", name := ← str j "name",
+         hasPort := ← bool j "hasPort", port := (← int j "port").toNat, weight := ← int j "weight", nfilters := ← nat j "nfilters" }
+
+def dRule (j : Json) : Except String Rule := do
+  pure { matches_ := ← (← arr j "matches").mapM dMatch, filters := ← (← arr j "filters").mapM dFilter,
+         backends := ← (← arr j "backends").mapM dBackend }
+
+def dParent (j : Json) : Except String ParentRef := do
+  pure { group := ← str j "group", kind := ← str j "kind", hasNs := ← bool j "hasNs", ns := ← str j "ns", name := ← str j "name",
+         hasSection := ← bool j "hasSection", sectionName := ← str j "section", hasPort := ← bool j "hasPort" }
+
+def dRoute (j : Json) : Except String Route := do
+  pure { kind := ← str j "kind", ns := ← str j "ns", name := ← str j "name", age := ← int j "age",
+         parents := ← (← arr j "parents").mapM dParent, hostnames := ← strs j "hostnames", rules := ← (← arr j "rules").mapM dRule }
+
+def dListener (j : Json) : Except String Listener := do
+  pure { name := ← str j "name", port := (← int j "port").toNat, proto := ← str j "proto", hasHost := ← bool j "hasHost",
+         host := ← str j "host", hasTls := ← bool j "hasTls", tlsMode := ← str j "tlsMode", tlsOpts := ← nat j "tlsOpts",
+         certs := ← (← arr j "certs").mapM (fun c => do
+           pure ({ group := ← str c "group", kind := ← str c "kind", hasNs := ← bool c "hasNs", ns := ← str c "ns", name := ← str c "name" } : CertRef)),
+         nsFrom := ← str j "from", hasSel := ← bool j "hasSel", selMatch := ← strMap j "selMatch", selExprs := ← nat j "selExprs",
+         hasKinds := ← bool j "hasKinds",
+         kinds := ← (← arr j "kinds").mapM (fun c => do pure (⟨← str c "group", ← str c "kind"⟩ : KindRef)) }
+
+def dScenario (j : Json) : Except String Scenario := do
+  pure { cls := ← str j "class", ctlr := ← str j "ctlr",
+         protectedPorts := ← (← arr j "protected").mapM (·.getNat?),
+         gcs := ← (← arr j "gcs").mapM (fun c => do pure (⟨← str c "name", ← str c "ctlr", ← int c "age", ← bool c "params"⟩ : GatewayClass)),
+         gws := ← (← arr j "gws").mapM (fun g => do
+           pure ({ ns := ← str g "ns", name := ← str g "name", cls := ← str g "class", age := ← int g "age",
+                   addresses := ← nat g "addresses", listeners := ← (← arr g "listeners").mapM dListener } : Gateway)),
+         nss := ← (← arr j "nss").mapM (fun n => do pure (⟨← str n "name", ← strMap n "labels"⟩ : Namespace)),
+         routes := ← (← arr j "routes").mapM dRoute,
+         svcs := ← (← arr j "svcs").mapM (fun v => do
+           pure ({ ns := ← str v "ns", name := ← str v "name",
+                   ports := ← (← arr v "ports").mapM (fun p => do pure (⟨(← int p "port").toNat, ← bool p "ready"⟩ : SvcPort)) } : Svc)),
+         grants := ← (← arr j "grants").mapM (fun g => do
+           pure ({ ns := ← str g "ns",
+                   «from» := ← (← arr g "from").mapM (fun f => do pure (⟨← str f "group", ← str f "kind", ← str f "ns"⟩ : GrantFrom)),
+                   to := ← (← arr g "to").mapM (fun t => do pure (⟨← str t "group", ← str t "kind", ← bool t "hasName", ← str t "name"⟩ : GrantTo)) } : Grant)),
+         secrets := ← (← arr j "secrets").mapM (fun x => do pure (⟨← str x "ns", ← str x "name", ← bool x "ok"⟩ : Secret)) }
+
+def optStr (j : Json) (k : String) : String := match j.getObjVal? k with | .ok (.str x) => x | _ => ""
+
+def dNjsMatch (j : Json) : Except String NGF.NginxEval.Njs.Match :=
+  match j with
+  | .obj _ =>
+    let any := match j.getObjVal? "any" with | .ok (.bool b) => b | _ => false
+    let lst (k : String) : List (List Char) := match j.getObjVal? k with
+      | .ok (.arr a) => a.toList.filterMap fun x => match x with | .str y => some y.toList | _ => none
+      | _ => []
+    .ok { any := any, method := (optStr j "method").toList, headers := lst "headers", params := lst "params",
+          redirectPath := (optStr j "redirectPath").toList }
+  | _ => .error "match is not an object"
+
+def dMatches (text : String) : Except String (List (String × List NGF.NginxEval.Njs.Match)) := do
+  match ← Json.parse text with
+  | .obj m => m.toList.mapM fun (k, v) => do
+      match v with
+      | .arr a => pure (k, ← a.toList.mapM dNjsMatch)
+      | _ => throw ("matches.json: value of " ++ k ++ " is not a list")
+  | .null => pure []
+  | _ => throw "matches.json is not an object"
+
+end Flat
+
+def issuesJ (is : List Issue) : Json := Json.arr (is.map fun i => Json.mkObj [("c", i.clause), ("d", i.detail)]).toArray
+
+def renderCase (j : Json) : Except String Json := do
+  let s ← Flat.dScenario (← j.getObjVal? "flat")
+  let http ← match parse (getStr j "http").toList with
+    | .ok d => pure d
+    | .error e => throw s!"http.conf does not parse: {reprStr e}"
+  let ms ← Flat.dMatches (getStr j "matches")
+  let t := NGF.RenderTie.tie http ms s
+  pure (Json.mkObj [("inFragment", t.inFragment), ("why", t.why), ("namesSafe", t.namesSafe), ("equal", t.equal), ("diff", t.diff),
+    ("matchesEqual", t.matchesEqual), ("matchesDiff", t.matchesDiff), ("dirs", t.dirs), ("servers", t.servers),
+    ("locations", t.locations), ("splits", t.splits), ("keys", t.keys), ("ports", t.ports),
+    ("dropped", Json.arr (t.dropped.map Json.str).toArray), ("wfModel", issuesJ t.wfModel), ("wfReal", issuesJ t.wfReal)])
+
 def driver (args : List String) : IO UInt32 := do
   let stdin ← IO.getStdin
   let stdout ← IO.getStdout
   let stat ← IO.mkRef ([] : List (Bool × List (String × String)))
   match args with
   | [mode] =>
-    if mode != "judge" && mode != "model" then
-      IO.eprintln "usage: C03 judge|model"; return 2
+    if mode != "judge" && mode != "model" && mode != "render" then
+      IO.eprintln "usage: C03 judge|model|render"; return 2
     NGF.Proto.forEachLine stdin fun l => do
       match Json.parse l with
       | .error _ => stdout.putStrLn "bad-op"
       | .ok j =>
-        if getBool j "static" then
+        if mode == "render" then
+          match renderCase j with
+          | .ok v => stdout.putStrLn v.compress
+          | .error e => stdout.putStrLn (Json.mkObj [("error", "bad-op"), ("why", e)]).compress
+        else if getBool j "static" then
           stat.modify fun s => (getBool j "plus", filesOf j) :: s
           stdout.putStrLn "{\"static\":true}"
         else if mode == "judge" then
@@ -136,9 +268,9 @@ def driver (args : List String) : IO UInt32 := do
         else
           stdout.putStrLn (modelCase j).compress
     return 0
-  | _ => IO.eprintln "usage: C03 judge|model"; return 2
+  | _ => IO.eprintln "usage: C03 judge|model|render"; return 2
 
 end NGF.C03Driver
 
-/-- executable entry point: `ngfdriver_C03 judge|model` -/
+/-- executable entry point: `ngfdriver_C03 judge|model|render` -/
 def main (args : List String) : IO UInt32 := NGF.C03Driver.driver args
